@@ -35,6 +35,10 @@ type Case struct {
 	PauseAt int `json:"pause_at,omitempty"`
 }
 
+// known finding: the requestor's record of its local history is keyed by path; a selector that loads one
+// path twice (overlapping union members) cannot be replayed against the second response after a resume
+const kTwice = "C02-path-loaded-twice-then-resume"
+
 func gen(t *rapid.T) Case {
 	d := dagen.GenDAG(t, dagen.GenOpts{MaxBlocks: run.N(12, 30), MaxDepth: 2})
 	sel := dagen.GenTraversalSel(t)
@@ -138,6 +142,10 @@ func judge(c Case) *pbt.Verdict {
 		return v
 	}
 
+	if c.PauseAt > 0 && ref.PathLoadedTwice() && run.Known(kTwice) {
+		v.Excluded = kTwice
+		return v
+	}
 	o := exchange(b, c.Sel, reqStore, respStore, c.PauseAt)
 	describe(v, c, b, ref, reqStore, respStore)
 	if o.paused {
